@@ -68,6 +68,15 @@ func onErr(err error, res chan model.QueryRangeOutput) {
 	}
 }
 
+// drainEntries keeps receiving what the pipeline still sends after the exporter gave up on an error entry,
+// so that the stages upstream (which may hold further messages) can finish instead of blocking on their send.
+func drainEntries(out chan []shared.LogEntry) {
+	go func() {
+		for range out {
+		}
+	}()
+}
+
 // func (q *QueryRangeService) exportStreamsValue(out chan []shared.LogEntry,
 //
 //		res chan model.QueryRangeOutput) {
@@ -153,6 +162,7 @@ func (q *QueryRangeService) exportStreamsValue(out chan []shared.LogEntry,
 			}
 			if e.Err != nil {
 				onErr(e.Err, res)
+				drainEntries(out)
 				return
 			}
 			if i == 0 || lastFp != e.Fingerprint {
@@ -252,6 +262,7 @@ func (q *QueryRangeService) QueryRange(ctx context.Context, query string, fromNs
 			for _, e := range entries {
 				if e.Err != nil && e.Err != io.EOF {
 					onErr(e.Err, res)
+					drainEntries(out)
 					return
 				}
 				if e.Err == io.EOF {
@@ -470,6 +481,7 @@ func (q *QueryRangeService) QueryInstant(ctx context.Context, query string, time
 			for _, e := range entries {
 				if e.Err != nil && e.Err != io.EOF {
 					onErr(e.Err, res)
+					drainEntries(out)
 					return
 				}
 				if e.Err == io.EOF {
@@ -605,6 +617,7 @@ func (q *QueryRangeService) Tail(ctx context.Context, query string) (model.IWatc
 					}
 					if e.Err != nil {
 						logger.Error(e.Err)
+						drainEntries(out)
 						return
 					}
 					if i == 0 || lastFp != e.Fingerprint {
